@@ -485,6 +485,10 @@ class Coordinator(object):
                     topic_partitions=topic_partitions,
                 )
 
+        if self._stopping:
+            # stop() was called while the leader was looking up partitions
+            return
+
         self._state = "[syncing]"
         sync_response = yield self.send_sync_group_request(assignments)
         if not sync_response or self._stopping:
